@@ -113,10 +113,15 @@ func cmdVerify(args []string) {
 	work := fs.String("work", "/verif/.work/dev", "work dir")
 	verbose := fs.Bool("v", false, "verbose")
 	nosolve := fs.Bool("nosolve", false, "generate only")
+	showModel := fs.Bool("model", false, "print counter-models")
+	evals := fs.String("eval", "", "contract expressions (separated by ;;) to evaluate in counter-models")
 	fs.Parse(args)
 	P := mustLoad(*repo)
 	for _, e := range P.contractErrs {
 		fmt.Println("CONTRACT ERROR:", e)
+	}
+	if *evals != "" {
+		debugEvalExprs = strings.Split(*evals, ";;")
 	}
 	var fns []*ssa.Function
 	for fn, c := range P.contracts {
@@ -136,7 +141,7 @@ func cmdVerify(args []string) {
 			res := P.verifyFunc(j.fn, j.c, j.cfg, j.has)
 			gen := time.Since(t0).Seconds()
 			for _, o := range res.Obls {
-				o.SMT = EmitSMT(o.Hyps, o.Goal, "", o.Cover)
+				o.SMT = EmitSMT(o.Hyps, o.Goal, "", o.Cover, o.Watch)
 			}
 			if !*nosolve {
 				solveAll(res.Obls, *work, *timeout, runtime.NumCPU())
@@ -151,6 +156,11 @@ func cmdVerify(args []string) {
 				}
 				if !ok || *verbose {
 					fmt.Printf("  %-8s %-10s %6.2fs  %s   [%s]\n", o.Status, o.Solver, o.Time, o.Name, o.Note)
+					if *showModel && !ok && !o.Cover {
+						for _, kv := range parseValues(o) {
+							fmt.Printf("      %-40s = %s\n", kv[0], kv[1])
+						}
+					}
 				}
 			}
 			fmt.Printf("%s %s: %d obligations, %d ok, %d not ok, gen %.2fs %s\n", res.Name, res.Config, len(res.Obls), nOK, nBad, gen, res.Err)
